@@ -148,13 +148,32 @@ def run(tier, seed, replay=None):
         dcases[cid] = (s2, d)
         cases.append({"id": cid, "settings": {}, "history": [{"op": "root", "schema": {"definitions": {"D": s2}}}],
                       "opts": {"facts": False, "code": False, "has_impl": False, "hooks": False}})
+    # directed: a recognised format whose fast path is left (multipleOf, or an explicit bound outside the format) with a
+    # default beyond the format's range on the side that carries no explicit bound
+    k = len(dsample)
+    for fmt, (lo, hi) in oracle.INT_FORMATS.items():
+        if abs(lo) > 2**53 or hi > 2**53:
+            continue   # (bounds beyond 2^53 are not distinguishable in schemars' f64 representation)
+        for s2 in ({"type": "integer", "format": fmt, "multipleOf": 1, "default": hi + 1},
+                   {"type": "integer", "format": fmt, "multipleOf": 1, "default": lo - 1},
+                   {"type": "integer", "format": fmt, "multipleOf": 1, "default": hi},
+                   {"type": "integer", "format": fmt, "minimum": lo - 1000, "default": hi + 500},
+                   {"type": "integer", "format": fmt, "maximum": hi + 1000, "default": lo - 7},
+                   {"type": "integer", "format": fmt, "minimum": lo - 1000, "default": lo}):
+            cid = "d%05d" % k
+            k += 1
+            dcases[cid] = (s2, s2["default"])
+            cases.append({"id": cid, "settings": {}, "history": [{"op": "root", "schema": {"definitions": {"D": s2}}}],
+                          "opts": {"facts": False, "code": False, "has_impl": False, "hooks": False}})
     # string / float format tables
     STR_TABLE = {"uuid": "::uuid::Uuid", "date": "::chrono::naive::NaiveDate",
                  "date-time": "::chrono::DateTime<::chrono::offset::Utc>", "ip": "::std::net::IpAddr",
                  "ipv4": "::std::net::Ipv4Addr", "ipv6": "::std::net::Ipv6Addr"}
     tdefs = {}
-    for f in list(STR_TABLE) + ["email", "hostname", "uri", "frob", "time", "byte", "int64"]:
-        tdefs["S_" + f.replace("-", "_")] = {"type": "string", "format": f}
+    for f in list(STR_TABLE) + ["email", "hostname", "uri", "frob", "time", "byte", "int64", "partial-date-time", "duration",
+                                "regex", "json-pointer", "binary", "password", "iri", "uri-reference", "idn-hostname", "Date",
+                                "DATE-TIME", "uuid4", "ipv4-network", "ip-address"]:
+        tdefs["S%02d_%s" % (len(tdefs), f.replace("-", "_"))] = {"type": "string", "format": f}
     for f in ["float", "double", "frob", "int32", None]:
         tdefs["N_%s" % f] = {"type": "number", **({"format": f} if f else {})}
     cases.append({"id": "tables", "settings": {}, "history": [{"op": "root", "schema": {"definitions": tdefs}}],
